@@ -24,6 +24,14 @@ EZ_STRINGS = [
     "{[#A]}.{#A=F/C=C\\F}",
     "{[#A][#B]}.{#A=CC(/Cl)=C(\\F)C[$],#B=[$]CC}",
 ]
+CG_STRINGS = [
+    "{[#A][#B].[#C][#D]}",
+    "{[#A].[#B]}",
+    "{[#PMA]([#PEO][#PEO][#OHter])|3}",
+    "{[#A]1[#B][#C]1.[#D]=[#E]}",
+    "{[#SP4]1.2[#SP4].3[#SP1r]1.[#TC4]23}",
+    "{[#A]=[#B]#[#C]$[#D]}",
+]
 MOL_STRINGS = [
     "{[#OHter][#PEO]|2[#OHter]}.{#PEO=[$]COC[$],#OHter=[$]O}",
     "{[#TC5]1[#TC5][#TC5]1}.{#TC5=[$]cc[$]}",
@@ -80,7 +88,10 @@ def generate(run_seed, prop, tier="quick"):
     if roll < 0.55:
         kind, n, edges = _shape(rng)
         source = {"type": "shape", "kind": kind, "n": n, "edges": [list(e) for e in edges],
-                  "orders": [rng.choice([1, 1, 1, 2, 3]) for _ in edges]}
+                  "orders": [rng.choice([1, 1, 1, 2, 3, 1, 1, 0, 1.5]) for _ in edges]}
+    elif roll < 0.62:
+        # coarse graphs as the reader returns them, incl. zero-order ('.') edges
+        source = {"type": "cg", "kind": "cgsmiles", "string": rng.choice(CG_STRINGS)}
     elif roll < 0.80:
         item = gen_mol.build_item(rng, kind="atomistic", size=rng.randint(2, 14), mid_levels=rng.choice([0, 1]))
         source = {"type": "resolved", "kind": "decomp", "string": item["multi"], "last_all_atom": True}
@@ -180,6 +191,9 @@ def run_history(scenario):
         graph.add_nodes_from(range(src["n"]))
         for (u, v), order in zip(src["edges"], src["orders"]):
             graph.add_edge(u, v, order=order)
+    elif src["type"] == "cg":
+        from cgsmiles.read_cgsmiles import read_cgsmiles
+        graph = read_cgsmiles(src["string"])
     else:
         from cgsmiles.resolve import MoleculeResolver
         try:
